@@ -129,6 +129,8 @@ def mk(kv, name, hf, info):
         "witness": kv.get("witness", ""),
         "derived": kv.get("derived", "0") == "1",
         "fs": kv.get("fs", ""),
+        "unwindset": kv.get("unwindset", ""),
+        "vt": kv.get("vt", "") == "1",
         "replay": kv.get("replay", "native"),
     }
 
@@ -296,6 +298,13 @@ def run_harness(h, overlay: Path, target: Path, logdir: Path, timeout_s, mem_gb,
     if h["features"]:
         cmd += ["--features", h["features"]]
     cmd += KANI_FLAGS
+    if h.get("vt"):
+        # restrict the targets of dyn-trait calls to implementations of that trait method (per harness:
+        # `vt=1`; needed where a Box<dyn Trait> forwards to itself, e.g. Box<dyn RngCore>)
+        cmd += ["-Z", "restrict-vtable"]
+    extra_cbmc = []
+    if h.get("unwindset"):
+        extra_cbmc = resolve_unwindset(h, list(cmd), cr, target, logdir)
     if playback:
         cmd += ["-Z", "concrete-playback", "--concrete-playback=print"]
     # must be last: passed through to CBMC. Field sensitivity for arrays up to 4096 cells (default 64)
@@ -304,7 +313,7 @@ def run_harness(h, overlay: Path, target: Path, logdir: Path, timeout_s, mem_gb,
     cbmc_args = list(CBMC_ARGS)
     if h.get("fs"):
         cbmc_args = ["--max-field-sensitivity-array-size", str(h["fs"])]
-    cmd += ["--cbmc-args"] + cbmc_args
+    cmd += ["--cbmc-args"] + cbmc_args + extra_cbmc
     lf = logdir / ((h["name"]) + (".playback" if playback else "") + ".log")
     t0 = time.time()
     mem_kb = mem_gb * 1024 * 1024
@@ -344,6 +353,37 @@ def run_harness(h, overlay: Path, target: Path, logdir: Path, timeout_s, mem_gb,
             if not [c for c in r["failed_checks"] if c["status"] == "FAILURE"]:
                 r["status"] = "oom"
     return r
+
+
+def resolve_unwindset(h, cmd, cr, target, logdir):
+    """`unwindset=<substring>:<n>[+<substring>:<n>]`: per-loop unwinding bounds for loops with a
+    CONCRETE trip count that exceeds the harness-wide bound (e.g. rand's 32-byte seed arrays), so that
+    the harness-wide bound, which every loop with a symbolic trip count is unrolled to, stays small.
+    CBMC names loops by mangled function name (it contains a per-build crate hash), so the labels are
+    looked up in the freshly generated GOTO binary: codegen only, `goto-instrument --show-loops`,
+    match by substring of label or function. Unwinding assertions stay on for these loops too."""
+    lf = logdir / (h["name"] + ".codegen.log")
+    with open(lf, "w") as f:
+        subprocess.run(cmd + ["--only-codegen"], cwd=cr, stdout=f, stderr=subprocess.STDOUT, env=ENV_BASE)
+    outs = sorted(Path(target).glob("kani/**/out/*%s.out" % h["name"]), key=lambda p: p.stat().st_mtime)
+    if not outs:
+        return []
+    p = subprocess.run(["goto-instrument", "--show-loops", str(outs[-1])], stdout=subprocess.PIPE,
+                       stderr=subprocess.DEVNULL, text=True)
+    loops = []
+    lines = p.stdout.splitlines()
+    for i, ln in enumerate(lines):
+        if ln.startswith("Loop ") and ln.rstrip().endswith(":"):
+            label = ln[5:].rstrip()[:-1]
+            where = lines[i + 1] if i + 1 < len(lines) else ""
+            loops.append((label, where))
+    sets = []
+    for item in h["unwindset"].split("+"):
+        pat, n = item.rsplit(":", 1)
+        for label, where in loops:
+            if pat in label or pat in where:
+                sets.append("%s:%s" % (label, n))
+    return ["--unwindset", ",".join(sets)] if sets else []
 
 
 def shquote(s):
